@@ -88,22 +88,6 @@ theorem consts_of_tree :
 
 /-! ### the two writers carry the client's facts -/
 
-theorem clientDO_of_set0 (c : Consts) (b : Bool) (q : Query)
-    (hv : ∀ o, q.opt = some o → o.version = 0) : (setEdns0 c b q.opt).do_ = q.clientDO := by
-  unfold Query.clientDO
-  cases h : q.opt with
-  | none => simp [setEdns0]
-  | some o => simp [setEdns0, hv o h]
-
-theorem set0_options_ecs (c : Consts) (b : Bool) (o : Option Opt) :
-    ∀ x ∈ (setEdns0 c b o).opt.options, x.code = codeECS := by
-  cases o with
-  | none => simp [setEdns0]
-  | some o =>
-    unfold setEdns0
-    simp only
-    split <;> exact forwardedECS_code b o.options
-
 /-- `EDNS.ServeDNS`'s writer (decoded request, supported EDNS version). -/
 theorem writer_decoded_for (c : Consts) (hc : ConstsOk c) (cfg : Cfg) (proto : Proto) (q : Query)
     (hv : ∀ o, q.opt = some o → o.version = 0) :
@@ -402,46 +386,6 @@ theorem serve_ad_discipline (L Lu : Msg → Nat) (c : Consts) (hc : ConstsOk c) 
 
 /-! ### clause 5 — options -/
 
-theorem finishOptions_mem (cfg : Cfg) (w : Writer) (os : List EOpt) (x : EOpt)
-    (hx : x ∈ finishOptions cfg w os) :
-    (x ∈ os ∧ x.code ≠ codeECS ∧ x.code ≠ codeKeepalive) ∨ (x = .srvKeepalive cfg.kaUnits ∧ w.keepalive = true) := by
-  unfold finishOptions stripKeepalive stripECS keepaliveOpts at hx
-  rcases List.mem_append.mp hx with h | h
-  · left
-    simp only [List.mem_filter, bne_iff_ne, ne_eq] at h
-    exact ⟨h.1.1, h.1.2, h.2⟩
-  · right
-    split at h
-    · rename_i hk; simp at h; exact ⟨h, hk⟩
-    · simp at h
-
-theorem writerOptions_mem (cfg : Cfg) (proto : Proto) (q : Query) (w : Writer) (hw : WriterFor cfg proto q w)
-    (x : EOpt) (hx : x ∈ writerOptions cfg w) :
-    x.code = codeECS ∨ (∃ c, x = .srvCookie c ∧ sentCookie q = some c) ∨
-      (x = .srvNsid cfg.nsid ∧ cfg.nsid ≠ [] ∧ q.hasOption codeNSID = true) := by
-  unfold writerOptions at hx
-  rcases List.mem_append.mp hx with h | h
-  · rcases List.mem_append.mp h with h | h
-    · left
-      cases ho : w.opt with
-      | none => rw [ho] at h; simp at h
-      | some o => rw [ho] at h; exact hw.wopt_ecs o ho x h
-    · right; left
-      unfold cookieOpts at h
-      cases hc : w.cookie with
-      | none => rw [hc] at h; simp at h
-      | some c =>
-        rw [hc] at h
-        simp only [List.mem_singleton] at h
-        exact ⟨c, h, by rw [← hw.cookie_eq, hc]⟩
-  · right; right
-    unfold nsidOpts at h
-    split at h
-    · rename_i hn
-      simp only [List.mem_singleton] at h
-      exact ⟨h, hn.1, hw.nsid_imp hn.2⟩
-    · simp at h
-
 /-- **Options.** Every option of every OPT record of a shaped reply is one of:
 the server cookie for the client cookie that was sent; the configured NSID,
 asked for; the server's keepalive, asked for over TCP; an extended error of
@@ -465,10 +409,10 @@ theorem no_ecs_no_foreign_options (L Lu : Msg → Nat) (cfg : Cfg) (proto : Prot
     have fromW : ∀ y ∈ writerOptions cfg w, y.code ≠ codeECS → y.code ≠ codeKeepalive →
         Allowed cfg proto q (upstreamOptions m) y := by
       intro y hy hne _
-      rcases writerOptions_mem cfg proto q w hw y hy with h | h | h
+      rcases writerOptions_mem cfg w hw.wopt_ecs y hy with h | ⟨c, hc1, hc2⟩ | ⟨h1, h2, h3⟩
       · exact absurd h hne
-      · exact Or.inl h
-      · exact Or.inr (Or.inl h)
+      · exact Or.inl ⟨c, hc1, by rw [← hw.cookie_eq, hc2]⟩
+      · exact Or.inr (Or.inl ⟨h1, h2, hw.nsid_imp h3⟩)
     unfold shapeOpt at ho
     rw [hm'] at ho
     cases hl : lastOpt m.extra with
